@@ -50,6 +50,11 @@ type invalidEntry struct {
 	At     string   // with Struct == "": the node path ("" = component root)
 	W      []Write  // writes relative to the node (override base writes at the same paths)
 	Tokens []string // substrings the error must contain (the key the rule is about)
+	// Alone: every base write at or below the node is removed first, so that the
+	// written key(s) meet the DEFAULTS of their unwritten siblings (rules whose
+	// verdict depends on a default: a written value that contradicts a default,
+	// or a required setting left unwritten).
+	Alone bool
 }
 
 func w(path string, v Val) Write { return Write{P: strings.Split(path, "::"), V: v} }
@@ -121,6 +126,49 @@ var invalidTable = []invalidEntry{
 	// telemetry.Config.Validate (the service section)
 	{Name: "telemetry-no-readers", Kinds: []string{"service/service"}, At: "telemetry", W: []Write{w("metrics::level", vText("basic")), w("metrics::readers", Val{K: "strs", L: []string{}})}, Tokens: []string{"reader"}},
 	{Name: "telemetry-views-level", Kinds: []string{"service/service"}, At: "telemetry", W: []Write{w("metrics::level", vText("normal")), w("metrics::views", Val{K: "strs", L: []string{}})}, Tokens: []string{"views"}},
+}
+
+// Rules whose verdict depends on the DEFAULT of an unwritten sibling: the single written key (or the absence of a
+// required one) is the whole mistake.  Every entry was confirmed rejected on the unchanged tree (the sweep fails
+// with accepted/invalid-nested/<name> otherwise).
+var defaultDependent = []invalidEntry{
+	// configtls: the implicit minimum is TLS 1.2 (defaultMinTLSVersion); the implicit maximum is "none", so no dual rule
+	{Name: "tls-max-below-default-min-1.0", Struct: "configtls.ClientConfig", W: []Write{w("max_version", vStr("1.0"))}, Tokens: []string{"max_version"}},
+	{Name: "tls-max-below-default-min-1.1", Struct: "configtls.ClientConfig", W: []Write{w("max_version", vStr("1.1"))}, Tokens: []string{"max_version"}},
+	{Name: "tls-max-below-default-min-1.0/server", Struct: "configtls.ServerConfig", W: []Write{w("max_version", vStr("1.0"))}, Tokens: []string{"max_version"}},
+	{Name: "tls-max-below-default-min-1.1/server", Struct: "configtls.ServerConfig", W: []Write{w("max_version", vStr("1.1"))}, Tokens: []string{"max_version"}},
+	// configretry: defaults enabled=true, initial 5s, max_interval 30s, max_elapsed_time 5m
+	{Name: "retry-initial-gt-default-elapsed", Struct: "configretry.BackOffConfig", W: []Write{w("initial_interval", Val{K: "dur", S: "10m"})}, Tokens: []string{"initial_interval"}},
+	{Name: "retry-max-interval-gt-default-elapsed", Struct: "configretry.BackOffConfig", W: []Write{w("max_interval", Val{K: "dur", S: "10m"})}, Tokens: []string{"max_interval"}},
+	{Name: "retry-elapsed-lt-default-initial", Struct: "configretry.BackOffConfig", W: []Write{w("max_elapsed_time", Val{K: "dur", S: "1s"})}, Tokens: []string{"max_elapsed_time"}},
+	{Name: "retry-elapsed-lt-default-max-interval", Struct: "configretry.BackOffConfig", W: []Write{w("max_elapsed_time", Val{K: "dur", S: "10s"})}, Tokens: []string{"max_elapsed_time"}},
+	// queuebatch: defaults enabled=true, sizer=requests; a created batch section starts from zero values
+	{Name: "queue-batch-default-sizer", Struct: "queuebatch.Config", W: []Write{w("batch::flush_timeout", Val{K: "dur", S: "1s"})}, Tokens: []string{"batch"}},
+	{Name: "batch-flush-timeout-unwritten", Struct: "queuebatch.Config", W: []Write{w("sizer", vText("items")), w("batch::min_size", vInt(5))}, Tokens: []string{"batch", "flush_timeout"}},
+	// deprecated batcher: a written section starts from NewDefaultBatcherConfig (flush 200ms, items, min_size 8192)
+	{Name: "batcher-max-lt-default-min", Struct: "internal.BatcherConfig", W: []Write{w("enabled", vBool(true)), w("max_size", vInt(100))}, Tokens: []string{"max_size"}},
+	// required settings left unwritten
+	{Name: "otlp-endpoint-unwritten", Kinds: []string{"exporters/otlp"}, Tokens: []string{"endpoint"}},
+	{Name: "otlphttp-endpoint-unwritten", Kinds: []string{"exporters/otlphttp"}, Tokens: []string{"endpoint"}},
+	{Name: "otlp-protocols-unwritten", Kinds: []string{"receivers/otlp"}, Tokens: []string{"protocol"}},
+	{Name: "memlim-check-interval-unwritten", Struct: "memorylimiter.Config", W: []Write{w("limit_mib", vInt(100))}, Tokens: []string{"check_interval"}},
+	{Name: "memlim-limit-unwritten", Struct: "memorylimiter.Config", W: []Write{w("check_interval", Val{K: "dur", S: "1s"})}, Tokens: []string{"limit_mib"}},
+	// memory limiter: default min_gc_interval_when_soft_limited is 10s
+	{Name: "memlim-hard-gt-default-soft", Struct: "memorylimiter.Config", W: []Write{w("check_interval", Val{K: "dur", S: "1s"}), w("limit_mib", vInt(100)), w("min_gc_interval_when_hard_limited", Val{K: "dur", S: "20s"})}, Tokens: []string{"min_gc_interval_when_hard_limited"}},
+	// otlphttp: default compression is gzip
+	{Name: "http-compression-level-default-type", Kinds: []string{"exporters/otlphttp"}, W: []Write{w("endpoint", vStr("http://h:1")), w("compression_params::level", vInt(77))}, Tokens: []string{"compression"}},
+	// batch processor: default send_batch_size is 8192
+	{Name: "batchproc-max-lt-default-size", Kinds: []string{"processors/batch"}, W: []Write{w("send_batch_max_size", vInt(100))}, Tokens: []string{"send_batch_max_size"}},
+	// telemetry: default metrics level is normal (not none, not detailed)
+	{Name: "telemetry-no-readers-default-level", Kinds: []string{"service/service"}, At: "telemetry", W: []Write{w("metrics::readers", Val{K: "strs", L: []string{}})}, Tokens: []string{"reader"}},
+	{Name: "telemetry-views-default-level", Kinds: []string{"service/service"}, At: "telemetry", W: []Write{w("metrics::views", Val{K: "strs", L: []string{}})}, Tokens: []string{"views"}},
+}
+
+func init() {
+	for _, e := range defaultDependent {
+		e.Alone = true
+		invalidTable = append(invalidTable, e)
+	}
 }
 
 var invalidByName = map[string]*invalidEntry{}
@@ -428,6 +476,11 @@ func (s *Script) variantDoc() (doc map[string]any, ok bool) {
 			return nil, false
 		}
 		node := descend(root, m.Path)
+		if e.Alone {
+			for k := range node {
+				delete(node, k)
+			}
+		}
 		ws := append([]Write{}, e.W...)
 		sort.SliceStable(ws, func(i, j int) bool { return len(ws[i].P) < len(ws[j].P) })
 		for _, x := range ws {
